@@ -141,7 +141,7 @@ func (p *c20) NumCases(tier string) int {
 	if tier == "thorough" {
 		return n*2 + 202
 	}
-	return n + 26
+	return n + 50
 }
 
 // parallelClients: 2-8 goroutines, each with its OWN client and its own native interpreter, dispatch at the
@@ -152,7 +152,7 @@ func (p *c20) NumCases(tier string) int {
 func (p *c20) parallelClients(x *res, idx int, ctx *runner.Ctx) {
 	r := mon.Rng(ctx.Seed, "C20P", idx)
 	g := []int{2, 4, 8}[idx%3]
-	rounds := 40
+	rounds := 100
 	subs := p.subsets(ctx.Tier)
 	type plan struct {
 		adapter string
